@@ -7,7 +7,8 @@ proof part : props/C16.v — verified validators with soundness theorems for ALL
 tie        : the real ExponentLattice(bases).compute_basis() runs in a worker on generated base
              lists; its output is (a) fed to the Coq validators together with untrusted
              certificates (lattice_cert.py), evaluated by vm_compute in the kernel, and (b)
-             compared with the Coq model of compute_basis_rational (correspondence).
+             compared with the Coq model of the repaired compute_basis_rational / _integer_kernel /
+             is_trivially_empty (correspondence: must agree on every rational input).
 search     : exact evaluation of prod b_i^e_i (Fractions / own tower arithmetic), the true
              integer kernel computed independently, bounded enumeration for irrational bases."""
 import itertools
@@ -17,8 +18,6 @@ import lib
 import exppoly
 import lattice_cert as lc
 
-KNOWN_TRUNC = "compute_basis_rational:non-integer-nullspace-truncated"
-KNOWN_ONE = "is_trivially_empty:base-equal-to-one-filtered-before-unit-test"
 
 
 # ---- generator ------------------------------------------------------------------------
@@ -296,16 +295,21 @@ def search_violation(inst):
 
 
 def classify(inst, kind):
-    """signature of a violation: the two known defect shapes are recognised by criteria computed
-    WITHOUT Polar (own Q-nullspace / own shortcut test) plus agreement with the Coq model."""
-    if inst["rational"] and inst.get("model_match"):
-        bs = inst["fr"]
-        triv = lc.trivially_empty_twin(bs)
-        if not triv and not lc.nullspace_is_integral(inst["primes"], inst["facts"]):
-            return KNOWN_TRUNC
-        if triv and any(b == 1 for b in bs) and inst["B"] == [] and kind == "missing-relation":
-            return KNOWN_ONE
+    """signature of a violation = the failing input.  The two repaired defect shapes (/repo a4c7460,
+    47f10be) are named in the text when the harness's own twin of the OLD rule explains the output."""
     return f"lattice:{';'.join(inst['polar'])}:{kind}"
+
+
+def old_rule_hint(inst):
+    if not inst["rational"]:
+        return ""
+    bs = inst["fr"]
+    primes, facts = lc.factor_rationals(bs)
+    if lc.trivially_empty_twin(bs) and any(b == 1 for b in bs) and inst["B"] == []:
+        return " [shape of the repaired defect 47f10be: shortcut taken although a base equals 1]"
+    if not lc.trivially_empty_twin(bs) and not lc.nullspace_is_integral(primes, facts):
+        return " [shape of the repaired defect a4c7460: the rational nullspace basis is not integral]"
+    return ""
 
 
 def run(ctx):
@@ -394,10 +398,12 @@ def run(ctx):
             key = "model_agrees" if c.get("model") else "model_differs"
             ctx.coverage[key] = ctx.coverage.get(key, 0) + 1
             if c.get("model") is False and sound and complete:
-                # the code no longer behaves like the (refuted) model here and its output is a proved
-                # basis: the property holds on this input, so this is not an alarm; the model-based
-                # theorems C16_*_refuted then describe the pinned tree only.
-                ctx.coverage["model_differs_on_proved_basis"] = ctx.coverage.get("model_differs_on_proved_basis", 0) + 1
+                # correspondence K broken although the property holds on this input
+                ctx.violation(f"model-mismatch:{';'.join(inst['polar'])}",
+                              {"bases": inst["polar"], "polar_basis": inst["B"],
+                               "stage": "LatticeModel.model_compute_basis (is_trivially_empty / compute_basis_rational / _integer_kernel)"},
+                              f"the Coq model of compute_basis differs from the real output {inst['B']} on {inst['polar']} "
+                              f"(the output itself is a proved basis)", no_input=True)
         if sound and (complete or not inst["rational"]):
             if inst["rational"]:
                 stat["basis-proved"] = stat.get("basis-proved", 0) + 1
@@ -440,7 +446,7 @@ def run(ctx):
                                   "instance": {"family": inst["family"], "polar": inst["polar"], "exact": inst["exact"]},
                                   "polar_basis": inst["B"], "kind": kind, "witness": wit,
                                   "validators": c, "call": "ExponentLattice(bases).compute_basis()"},
-                            f"ExponentLattice({inst['polar']}).compute_basis() = {inst['B']}: {what}")
+                            f"ExponentLattice({inst['polar']}).compute_basis() = {inst['B']}: {what}{old_rule_hint(inst)}")
         stat[kind] = stat.get(kind, 0) + 1
         if not new:
             ctx.coverage["discharged"] += 1  # instance decided: known finding
@@ -450,10 +456,6 @@ def run(ctx):
     ctx.coverage["decisions"] = stat
     ctx.coverage["polar_errors"] = errs
     ctx.coverage["searched_instances"] = searched
-    if ctx.coverage.get("model_differs_on_proved_basis"):
-        print(f"NOTE: the Coq model of compute_basis_rational/is_trivially_empty differs from the code on "
-              f"{ctx.coverage['model_differs_on_proved_basis']} inputs where the code's output is a proved basis "
-              f"(code repaired? then C16_truncation_refuted / C16_trivially_empty_refuted describe the old tree)", flush=True)
     for inst in insts:
         if "polar_error" in inst and inst["polar_error"].get("error") != "timeout":
             ctx.violation(f"exception:{';'.join(inst['polar'])}:{inst['polar_error'].get('etype')}",
